@@ -144,6 +144,14 @@ func ZZ_C10_List() {
 				rt.Assume(zzTabHash(keys[j].key) != h)
 			}
 		}
+		if rt.Bound("ORDERED") > 0 {
+			// keys are created in ascending (hash, key) order, the order in which the real skipmaps iterate (the engine's
+			// container model iterates symbolic keys in insertion order): order-dependent behaviour of the listing is
+			// then explored faithfully and replays natively
+			for j := 0; j < i; j++ {
+				rt.Assume(rt.Or(zzTabHash(keys[j].key) < h, rt.And(zzTabHash(keys[j].key) == h, zzLexLess(keys[j].key, k.key))))
+			}
+		}
 		if n > 1 {
 			if rt.Bound("ONEPER") > 0 { // key i lives on member i mod n: no case split
 				owners[i] = i % n
